@@ -400,6 +400,7 @@ typedef struct {
 static ProtobufCMessageDescriptor *g_desc;
 static MInfo *g_mi;
 static unsigned g_nmsgs;
+static void shared_snapshot(void);
 
 static const char *const type_names[17] = {
 	"INT32", "SINT32", "SFIXED32", "INT64", "SINT64", "SFIXED64", "UINT32",
@@ -615,6 +616,7 @@ schema_line(char *line)
 			drv_fail("END after %u of %u MSG blocks", s_msg, g_nmsgs);
 		s_state = 3;
 		g_in_schema = 0;
+		shared_snapshot();
 	} else if (s_state == 2 && !strcmp(kw, "F")) {
 		unsigned idx = s_msg - 1;
 		MInfo *mi = &g_mi[idx];
@@ -790,6 +792,83 @@ schema_free(void)
 	}
 	free(g_mi);
 	free(g_desc);
+}
+
+/* ------------------------------------------------------------------------- */
+/* shared state: descriptors and default values are shared by every message  */
+/* (and every thread) and must never be written by the library.  A snapshot  */
+/* is taken when the schema is complete and compared at exit; a difference   */
+/* adds the line SHARED-STATE-CHANGED to the output.                         */
+/* ------------------------------------------------------------------------- */
+static struct { const void *p; size_t n; void *copy; } *g_sh;
+static size_t g_nsh, g_csh;
+
+static void
+shared_add(const void *p, size_t n)
+{
+	if (!p || !n)
+		return;
+	if (g_nsh == g_csh) {
+		g_csh = g_csh ? g_csh * 2 : 64;
+		g_sh = realloc(g_sh, g_csh * sizeof *g_sh);
+	}
+	g_sh[g_nsh].p = p;
+	g_sh[g_nsh].n = n;
+	g_sh[g_nsh].copy = malloc(n);
+	memcpy(g_sh[g_nsh].copy, p, n);
+	g_nsh++;
+}
+
+static void
+shared_snapshot(void)
+{
+	unsigned m, i;
+
+	for (m = 0; m < g_nmsgs; m++) {
+		MInfo *mi = &g_mi[m];
+
+		shared_add(&g_desc[m], sizeof g_desc[m]);
+		shared_add(mi->fields, mi->nfields * sizeof *mi->fields);
+		shared_add(mi->by_name, mi->nfields * sizeof *mi->by_name);
+		shared_add(mi->ranges, (g_desc[m].n_field_ranges + 1) * sizeof *mi->ranges);
+		for (i = 0; i < mi->nfields; i++) {
+			const ProtobufCFieldDescriptor *f = &mi->fields[i];
+
+			if (!f->default_value)
+				continue;
+			if (mi->fi[i].kind == K_STRING) {
+				shared_add(f->default_value, strlen(f->default_value) + 1);
+			} else if (mi->fi[i].kind == K_BYTES) {
+				const ProtobufCBinaryData *bd = f->default_value;
+
+				shared_add(bd, sizeof *bd);
+				shared_add(bd->data, bd->len + 1);
+			} else {
+				shared_add(f->default_value, 8);
+			}
+		}
+	}
+	shared_add(&protobuf_c__allocator, sizeof protobuf_c__allocator);
+}
+
+static void
+shared_report(void)
+{
+	size_t i;
+	int changed = 0;
+
+	for (i = 0; i < g_nsh; i++) {
+		if (memcmp(g_sh[i].p, g_sh[i].copy, g_sh[i].n))
+			changed = 1;
+		free(g_sh[i].copy);
+	}
+	free(g_sh);
+	g_sh = NULL;
+	g_nsh = g_csh = 0;
+	if (changed) {
+		fputs("SHARED-STATE-CHANGED\n", stdout);
+		fflush(stdout);
+	}
 }
 
 /* ------------------------------------------------------------------------- */
@@ -2008,6 +2087,7 @@ mt_main(unsigned nth, const char *path)
 	for (i = 0; i < nl; i++) { if (outs[i]) { fputs(outs[i], stdout); free(outs[i]); } free(lines[i]); }
 	free(lines); free(outs); free(th); free(jobs);
 	free(g_ob); free(g_arena);
+	shared_report();
 	schema_free();
 	return 0;
 }
@@ -2076,6 +2156,7 @@ main(int argc, char **argv)
 	free(g_rec.sizes);
 	free(g_rec.refused);
 	free(g_rec.tab);
+	shared_report();
 	schema_free();
 	return 0;
 }
